@@ -50,8 +50,11 @@ def showSpec : Option (Key × Nat) → String
   | none => "-"
   | some (k, o) => showBytes k ++ " " ++ toString o
 
+/-- `NOCOMP`: the replayed overlay violates the companion invariant assumed by the fast-path
+theorems (never printed by the implementation side, so it shows up as a disagreement) -/
 def out (oi : OI) (spec : String) : String :=
-  (if oi.stuck then "STUCK " else "") ++ showOI oi ++ " S " ++ spec ++ " C " ++
+  (if oi.stuck then "STUCK " else "") ++
+  (if compFrom [] (curLayers oi) then "" else "NOCOMP ") ++ showOI oi ++ " S " ++ spec ++ " C " ++
     " ".intercalate (oi.curs.map showCur)
 
 def step (d : DS) (l : List String) : DS × String :=
